@@ -354,6 +354,8 @@ def replay(case):
     k = case["kind"]
     if k == "mpf2float":
         return check_mpf2float(case["fmt"], case["sign"], int(case["man"]), case["exp"], case["ctxprec"], case.get("flush"))
+    if k == "add3":
+        return check_add3(case)
     if k == "backend":
         p = dict(case["params"])
         return check_backend(case["name"], p, case["fmt"], case["xbits"], case["as_array"], case.get("cplx", False))
@@ -416,6 +418,72 @@ def _backend_shard(task):
     return p
 
 
+def check_add3(case):
+    """x + y + z through the backend with enough extra precision for the sum to be exact in the working precision:
+    y = +-ulp(x)/2 puts the sum on (z == 0) or just beside (z tiny) a rounding midpoint of the target format, so any
+    intermediate rounding (e.g. through a 53-bit Python float) shows as a wrong last bit."""
+    from functional_algorithms import utils
+
+    fb, xb, ysign, k, zsign, params, as_array = case["fmt"], case["x"], case["ysign"], case["k"], case["zsign"], case["params"], case["as_array"]
+    f = flt.FMT[fb]
+    x = flt.bits2frac(xb, f)
+    u = flt.ulp_frac(x, f)
+    y = ysign * u / 2
+    z = Fraction(0) if k is None else zsign * u * Fraction(2) ** (-k)
+    vals = [flt.RN(v, f) for v in (x, y, z)]
+    if any(flt.bits2frac(b, f) != v for b, v in zip(vals, (x, y, z))):
+        return []  # an operand is not representable (x too close to the subnormal range)
+    kw = {}
+    if params["flush"] == "sentinel":
+        kw["flush_subnormals"] = utils.UNSPECIFIED
+    elif params["flush"] != "unspecified":
+        kw["flush_subnormals"] = params["flush"]
+    if params["extra_prec"]:
+        kw["extra_prec"] = params["extra_prec"]
+    if params["mult"]:
+        kw["extra_prec_multiplier"] = params["mult"]
+    fn = utils.vectorize_with_mpmath(lambda a, b, c: a + b + c, **kw)
+    args = [np.array([b] * (3 if as_array else 1), dtype=np.uint64).astype(f.utype).view(f.ftype) for b in vals]
+    if not as_array:
+        args = [a[0] for a in args]
+    try:
+        with np.errstate(all="ignore"):
+            res = np.atleast_1d(np.asarray(fn(*args)))
+    except Exception as e:
+        return [("backend/add3/raises/%s" % type(e).__name__, "x+y+z%r raised %r" % (params, e))]
+    want = flt.RN(x + y + z, f)
+    out = []
+    for r in res:
+        if res.dtype != f.ftype or flt.scalar_bits(r) != want:
+            out.append(("backend/add3/not-correctly-rounded/%s" % ("tie" if k is None else "beside-midpoint"), "backend x+y+z with x=%r y=%r z=%r %r %s = %r, correctly rounded %r" % (flt.bits_scalar(vals[0], f), flt.bits_scalar(vals[1], f), flt.bits_scalar(vals[2], f), params, "array" if as_array else "scalar", r, flt.bits_scalar(want, f))))
+            break
+    return out
+
+
+def _add3_shard(task):
+    seed, shard, n = task
+    p = Partial()
+    rng = np.random.Generator(np.random.PCG64([seed, 153, shard]))
+    for _ in range(n):
+        fb = int(rng.choice([16, 32, 64]))
+        f = flt.FMT[fb]
+        e = int(rng.integers(f.emin + f.p + 2, f.emax - 2))
+        xb = ((e + f.bias) << f.mbits) | int(rng.integers(0, 1 << f.mbits)) | (int(rng.integers(0, 2)) << (f.bits - 1))
+        kmax = min(60, e - f.emin - f.p)  # z must stay a normal number
+        k = None if rng.random() < 0.25 or kmax < 3 else int(rng.integers(2, kmax + 1))
+        need = (k or 0) + 4  # bits beyond p the exact sum needs
+        extra, mult = (int(rng.choice([need + 8, 100])), 0) if rng.random() < 0.5 else (0, int(-(-(need + 8) // f.p)))
+        case = {"kind": "add3", "fmt": fb, "x": xb, "ysign": int(rng.choice([-1, 1])), "k": k, "zsign": int(rng.choice([-1, 1])), "params": {"flush": str(rng.choice(["unspecified", "sentinel", "False"])), "extra_prec": extra, "mult": mult}, "as_array": bool(rng.integers(0, 2))}
+        if case["params"]["flush"] == "False":
+            case["params"]["flush"] = False
+        bad = check_add3(case)
+        p.count(1, "backend/add3/f%d/%s" % (fb, "tie" if k is None else "beside-midpoint"))
+        p.nontrivial(("add3", fb, xb, case["ysign"], k, case["zsign"]))
+        for cls, what in bad:
+            p.violation(cls, what, case)
+    return p
+
+
 def run(ctx):
     q = ctx.quick
     ctx.rule = (
@@ -424,7 +492,8 @@ def run(ctx):
         "edge and half the smallest subnormal; both signs; context precisions p..300) compared with exact round-to-nearest-even; "
         "backend: identity, negation, x/2, x*x, sqrt through vectorize_with_mpmath and numpy_with_mpmath for flush_subnormals in "
         "{unspecified, False, True} x extra_prec {0,1,20} x extra_prec_multiplier {0,1,20}, scalars, arrays and complex values, "
-        "inputs biased to subnormals and to results near the subnormal range. Non-trivial = mantissa longer than the target precision "
+        "inputs biased to subnormals and to results near the subnormal range; a three-argument sum x + y + z with y = +-ulp(x)/2 and z zero or "
+        "tiny, evaluated with enough extra precision to be exact before the final rounding (ties and values beside a midpoint). Non-trivial = mantissa longer than the target precision "
         "with a result outside the subnormal range / backend call with at least one subnormal input; distinct by full case."
     )
     ctx.assumptions = [
@@ -438,3 +507,4 @@ def run(ctx):
     known = ctx.known
     ctx.pmap(_mpf_shard, [(ctx.seed, s, n1, known) for s in range(nsh)])
     ctx.pmap(_backend_shard, [(ctx.seed, s, n2, known) for s in range(nsh)])
+    ctx.pmap(_add3_shard, [(ctx.seed, s, 60 if q else 3000) for s in range(nsh)])
